@@ -11,7 +11,7 @@ import pandas as pd
 
 LV = {"f": ["a", "b", "c"], "g": ["u", "v", "w", "t"], "h": ["p", "q"],
       "cu": ["m1", "m3", "m2"], "co": ["lo", "mid", "hi"]}
-CO_ORDER = ["hi", "lo", "mid"]            # declared (non-sorted) order of the ordered categorical
+CO_ORDER = ["lo", "mid", "hi"]            # declared order: neither sorted nor starting with the smallest
 
 
 def gen_frame(rng, n=None, complete=True):
@@ -30,6 +30,7 @@ def gen_frame(rng, n=None, complete=True):
     cols["x"] = [float(rng.randrange(-6, 7)) for _ in range(n)]
     cols["z"] = [rng.randrange(-8, 9) / 4 for _ in range(n)]
     cols["k"] = cat([1, 2, 10])          # numeric ids that sort differently as strings
+    cols["kz"] = cat([-1, 0, 1])         # integer codes incl. the falsy level 0, not first
     cols["n"] = [rng.randrange(3, 9) for _ in range(n)]
     cols["s"] = [rng.randrange(0, t + 1) for t in cols["n"]]
     for name in ("f", "g", "h"):
